@@ -32,7 +32,7 @@ def make_runs(run):
         if p is None:
             continue
         runs.append(dict(p=p, frac=(Fraction(1, 2) if k % 5 == 1 else Fraction(1)), replace_all=(k % 3 == 0), ignore=False, seed=run.rng.randrange(1 << 30), parts=("outcome",),
-                         kind="planted", joint=(pat in UNIQUE_POSE)))
+                         kind="planted", joint=(pat in UNIQUE_POSE), replica2=(k % 3 == 0)))
     return runs
 
 
@@ -54,8 +54,60 @@ def canon(out, cell):
     return sorted(res)
 
 
+def second_on_replica(run, r, res):
+    """the result of the replacement is replicated (same object lineage, no rebuilding) and a bystander site of the supercell is replaced
+    by a two-atom group Rn-H with |Rn-H| = 1 A: every inserted H must lie inside the NEW cell, 1 A (minimum image in the NEW cell) from a Rn"""
+    from mofun import Atoms, replace_pattern_in_structure
+    import random
+    new = res.get("new")
+    if new is None or new.cell is None:
+        return []
+    els = [str(e) for e in new.elements]
+    cand = [e for e in ("Xe", "Ar", "Kr") if e in els]
+    if not cand:
+        return []
+    e = cand[0]
+    f = run.rng.choice([(2, 1, 1), (1, 2, 1), (1, 1, 2)])
+    bad = []
+    with AIO.quiet():
+        big = new.replicate(f)
+        P = Atoms(elements=[e], positions=[[0., 0., 0.]])
+        R = Atoms(elements=["Rn", "H"], positions=[[0., 0., 0.], [1., 0., 0.]])
+        random.seed(r["seed"] + 7)
+        np.random.seed((r["seed"] + 7) % (2 ** 32))
+        try:
+            out = replace_pattern_in_structure(big, P, R)
+        except Exception as ex:     # noqa
+            return ["replacement on the replicated result raised %s: %s" % (type(ex).__name__, ex)]
+    run.cov["evaluations"] += 1
+    run.count("kind=replace-replicate-replace")
+    cell = np.array(out.cell, float)
+    inv = np.linalg.inv(cell)
+    oe = [str(x) for x in out.elements]
+    pos = np.array(out.positions, float)
+    k = sum(1 for x in big.elements if str(x) == e)          # one inserted (Rn, H) pair per replaced site, appended at the end
+    tail = list(range(len(oe) - 2 * k, len(oe)))
+    if [oe[i] for i in tail] != ["Rn", "H"] * k:
+        return ["after replicate %s: the %d replaced sites are not followed by %d appended Rn-H pairs" % (f, k, k)]
+    rn = pos[[i for i in tail if oe[i] == "Rn"]]
+    hs = [i for i in tail if oe[i] == "H"]
+    fr = pos @ inv
+    for i in tail:
+        if fr[i].min() < -1e-6 or fr[i].max() > 1 + 1e-6:
+            bad.append("after replicate %s: inserted atom %d has fractional coordinates %s in the new cell" % (f, i, np.round(fr[i], 4).tolist()))
+            break
+    for i in hs:
+        d = min(FG.min_image_dist(cell, inv, pos[i], x) for x in rn) if len(rn) else 9.9
+        if abs(d - 1.0) > 1e-5:
+            bad.append("after replicate %s: inserted H %d is %.4f A (minimum image in the new cell) from the nearest inserted Rn, the replacement pattern says 1.0" % (f, i, d))
+            break
+    return bad
+
+
 def extra(r, res, run):
     bad = []
+    if res["outcome"] == "ok" and r.get("replica2"):
+        bad += second_on_replica(run, r, res)
     if r.get("joint") and res["outcome"] == "ok" and len(r["p"]["repl"]["pos"]):
         # move search and replacement pattern together by an exact rigid motion (signed permutation + grid translation)
         q = run.rng.choice(FG.AXIS_QUATS)
